@@ -1,6 +1,6 @@
 import Pyxv.Proofs.C02
 import Pyxv.Proofs.C03
-import Pyxv.Proofs.C10
+import Pyxv.Proofs.DefaultsLemmas
 import Pyxv.Proofs.C19
 import Pyxv.Proofs.C01Valid
 import Pyxv.Model.Lexer
@@ -84,7 +84,8 @@ example : Lexer.refSyntaxOk "${a > 1".toList = some false ∧ Lexer.refSyntaxOk 
     Lexer.refSyntaxOk "${${a}} > 1".toList = some false ∧ Lexer.refSyntaxOk "${} > 1".toList = some false ∧
     Lexer.refSyntaxOk "${a} > 1".toList = some true := by decide +kernel
 
-/-! ### triggers (`bad_trigger`) — `Pyxv.C10` -/
+/-! ### triggers (`bad_trigger`) — `Pyxv.Defaults` (the lemma behind `C10.accepted_trigger_visible`; imported from
+`DefaultsLemmas` so that this file does not depend on C10's pinned-table facts) -/
 
 /-- **bad_trigger.**  If some question carries a trigger cell that is not exactly one reference to a question
     that renders a control, the form is not accepted. -/
@@ -92,7 +93,7 @@ theorem bad_trigger_rejected (dyn : Defaults.Q → Bool) (root : Str) (els : Lis
     (pq : Defaults.Path) (q : Defaults.Q) (hq : (pq, q) ∈ Defaults.qwp [root] els) (htrig : q.trigger.isEmpty = false)
     (hbad : ¬ ∃ x ∈ Defaults.qwp [root] els, Pyxv.strip q.trigger = Defaults.refOf x.2.name ∧ Defaults.shown x.2 = true) :
     Defaults.check dyn els ≠ none :=
-  fun h => hbad (C10.accepted_trigger_visible dyn root els h pq q hq htrig)
+  fun h => hbad (Defaults.accepted_trigger_visible_aux dyn els [root] h (pq, q) hq htrig)
 
 /-! ### names that would make the XForm not well-formed (`xml_names`) — `Pyxv.Asm.validDoc` -/
 
